@@ -716,7 +716,7 @@ impl HashColumn {
 		key: &Key,
 		address: Address,
 		index: &IndexTable,
-		log: &LogWriter,
+		log: &impl LogQuery,
 	) -> Result<bool> {
 		let (mut existing_entry, mut sub_index) = index.get(key, 0, log)?;
 		while !existing_entry.is_empty() {
@@ -1547,17 +1547,59 @@ impl HashColumn {
 			IterStateOrCorrupted::Corrupted(..) =>
 				Err(Error::Corruption("Missing indexed value".into())),
 		};
-		self.iter_index_internal(log, action, 0)
+		// Entries that a pending reindex has not moved yet are only found in the queued
+		// older index tables: walk those as well.
+		self.iter_index_tables(log, action, 0, true)
 	}
 
 	fn iter_index_internal(
 		&self,
 		log: &Log,
-		mut f: impl FnMut(IterStateOrCorrupted) -> Result<bool>,
+		f: impl FnMut(IterStateOrCorrupted) -> Result<bool>,
 		start_chunk: u64,
 	) -> Result<()> {
+		self.iter_index_tables(log, f, start_chunk, false)
+	}
+
+	fn iter_index_tables(
+		&self,
+		log: &Log,
+		mut f: impl FnMut(IterStateOrCorrupted) -> Result<bool>,
+		start_chunk: u64,
+		with_reindex_queue: bool,
+	) -> Result<()> {
 		let tables = self.tables.read();
-		let source = &tables.index;
+		let reindex = if with_reindex_queue { Some(self.reindex.read()) } else { None };
+		// Oldest table first. While the queue is locked a queued table does not change and
+		// entries only move from older to newer tables, so every entry is reported exactly
+		// once: from the oldest table that holds it.
+		let mut sources: Vec<&IndexTable> = Vec::new();
+		if let Some(reindex) = reindex.as_ref() {
+			for entry in &reindex.queue {
+				if let ReindexEntry::Index(table) = entry {
+					sources.push(table);
+				}
+			}
+		}
+		sources.push(&tables.index);
+		for (n, source) in sources.iter().enumerate() {
+			if !self.iter_index_table(&tables, source, &sources[..n], log, &mut f, start_chunk)? {
+				break
+			}
+		}
+		Ok(())
+	}
+
+	// Returns `false` when the callback asked to stop.
+	fn iter_index_table(
+		&self,
+		tables: &Tables,
+		source: &IndexTable,
+		older: &[&IndexTable],
+		log: &Log,
+		f: &mut impl FnMut(IterStateOrCorrupted) -> Result<bool>,
+		start_chunk: u64,
+	) -> Result<bool> {
 		let total_chunks = source.id.total_chunks();
 
 		for c in start_chunk..total_chunks {
@@ -1565,6 +1607,25 @@ impl HashColumn {
 			for (sub_index, entry) in entries.iter().enumerate() {
 				if entry.is_empty() {
 					continue
+				}
+				if !older.is_empty() {
+					let key_prefix = source.recover_key_prefix(c, *entry);
+					let address = entry.address(source.id.index_bits());
+					let mut reported = false;
+					for table in older {
+						if Self::contains_partial_key_with_address(
+							&key_prefix,
+							address,
+							table,
+							log.overlays(),
+						)? {
+							reported = true;
+							break
+						}
+					}
+					if reported {
+						continue
+					}
 				}
 				let (size_tier, offset) = {
 					let address = entry.address(source.id.index_bits());
@@ -1583,7 +1644,7 @@ impl HashColumn {
 							entry: *entry,
 							error: None,
 						}))? {
-							return Ok(())
+							return Ok(false)
 						}
 						continue
 					},
@@ -1600,7 +1661,7 @@ impl HashColumn {
 							entry: *entry,
 							error: Some(e),
 						}))? {
-							return Ok(())
+							return Ok(false)
 						}
 						continue
 					},
@@ -1625,11 +1686,11 @@ impl HashColumn {
 					value,
 				});
 				if !f(state)? {
-					return Ok(())
+					return Ok(false)
 				}
 			}
 		}
-		Ok(())
+		Ok(true)
 	}
 
 	fn iter_index_fast(
